@@ -64,9 +64,17 @@ func NewIOReaderLine(reader io.Reader) ro.Observable[[]byte] {
 	return ro.NewUnsafeObservableWithContext(func(ctx context.Context, destination ro.Observer[[]byte]) ro.Teardown {
 		r := bufio.NewReader(reader)
 
+		// A line longer than the reader's buffer comes in several pieces (isPrefix): they are
+		// put together again. `line` is a private copy, the pieces belong to the reader.
+		var line []byte
+
 		for {
-			lines, _, err := r.ReadLine()
+			piece, isPrefix, err := r.ReadLine()
 			if err != nil {
+				if len(line) > 0 {
+					destination.NextWithContext(ctx, line)
+				}
+
 				if err == io.EOF {
 					destination.CompleteWithContext(ctx)
 				} else {
@@ -75,8 +83,18 @@ func NewIOReaderLine(reader io.Reader) ro.Observable[[]byte] {
 				break
 			}
 
-			output := make([]byte, len(lines))
-			copy(output, lines)
+			line = append(line, piece...)
+			if isPrefix {
+				continue
+			}
+
+			output := line
+			line = nil
+
+			if output == nil {
+				output = []byte{} // an empty line
+			}
+
 			destination.NextWithContext(ctx, output)
 		}
 
